@@ -1,7 +1,7 @@
 (* C05 -- property theorems only.  Proofs live in C05/Proofs*.v. *)
 From Coq Require Import NArith List Bool.
 From DV Require Import Base.Outcome Base.Bytes Base.Names Base.PName
-  C05.Schema C05.Gen C05.Model C05.OptModel C05.ProofsA C05.ProofsB C05.ProofsC C05.ProofsD C05.ProofsE C05.ProofsF C05.Proofs.
+  C05.Schema C05.Gen C05.Model C05.OptModel C05.ProofsA C05.ProofsB C05.ProofsC C05.ProofsD C05.ProofsE C05.ProofsF C05.ProofsG C05.Proofs.
 Import ListNotations.
 Local Open Scope N_scope.
 
@@ -179,3 +179,22 @@ Theorem C05_ipseckey_parse_compose : forall g v pre post,
   rdlen (ipseckey_schema g) false v = Ok (Some (len (compose (ipseckey_schema g) v))).
 Proof. exact ipseckey_parse_compose. Qed.
 Print Assumptions C05_ipseckey_parse_compose.
+
+(* types without embedded names: parse is exact -- what it accepts re-composes
+   to the very octets read -- so the re-compose theorem needs no premise on the
+   composed length beyond the RDLENGTH being a u16 *)
+Theorem C05_parse_exact : forall dec s m pos lim v,
+  forallb no_name (s_fields s) = true -> wf_bytes m -> lim <= mlen m -> pos <= lim ->
+  parse_rdata dec s m pos lim = Ok v -> compose s v = slice m pos lim.
+Proof. exact parse_exact. Qed.
+Print Assumptions C05_parse_exact.
+
+Theorem C05_recompose_nameless : forall dec dec' s m pos lim v pre post,
+  dec_sound dec -> dec_complete dec' -> wf_schema_full s = true ->
+  forallb no_name (s_fields s) = true ->
+  wf_bytes m -> lim <= mlen m -> pos <= lim -> lim - pos <= 65535 ->
+  parse_rdata dec s m pos lim = Ok v ->
+  compose s v = slice m pos lim /\
+  parse_rdata dec' s (pre ++ compose s v ++ post) (len pre) (len pre + len (compose s v)) = Ok v.
+Proof. exact recompose_nameless. Qed.
+Print Assumptions C05_recompose_nameless.
